@@ -21,6 +21,8 @@ def _contains_symscalar(x):
     from .engine import SymScalar
     if isinstance(x, SymScalar):
         return True
+    if type(x) is float and x != x and S.unbox(x) is not None:
+        return True
     if isinstance(x, (list, tuple)):
         return any(_contains_symscalar(y) for y in x)
     return False
@@ -39,6 +41,8 @@ def _sym_tensor_factory(orig):
             def strip(x):
                 if isinstance(x, SymScalar):
                     return x.v
+                if type(x) is float and x != x and S.unbox(x) is not None:
+                    return S.unbox(x)
                 if isinstance(x, (list, tuple)):
                     return [strip(y) for y in x]
                 if isinstance(x, SymTensor):
@@ -146,6 +150,12 @@ def all_zero(a):
     return zand([S.zbool(S.eq(x, 0)) for x in a])
 
 
+def _holds(ctx):
+    """a path that boxed a symbolic real into a Python float (sym.nanbox) lost track of Python-level arithmetic on it:
+    its obligations may be violated (replay-confirmed) but are never reported as holding"""
+    return "inconclusive" if getattr(ctx, "tainted", False) else "holds"
+
+
 def decide(ctx, negated, extra=()):
     """-> ('holds', None) | ('violated', model) | ('inconclusive', None). Path condition is in ctx.solver."""
     ctx._sync()
@@ -156,7 +166,7 @@ def decide(ctx, negated, extra=()):
         ctx.solver.add(negated)
         r = ctx.check()
         if r == z3.unsat:
-            return "holds", None
+            return _holds(ctx), None
         if r == z3.sat:
             return "violated", ctx.solver.model()
         return "inconclusive", None
@@ -233,7 +243,7 @@ def decide_nra(ctx, negated, extra=(), budget_s=40):
         if ctx.tally is not None:
             ctx.tally.count(str(r), time.time() - t0)
         if r == z3.unsat:
-            return "holds", None
+            return _holds(ctx), None
         if r == z3.sat:
             return "violated", s.model()
     return "inconclusive", None
@@ -264,10 +274,34 @@ def names_of(e):
     return out
 
 
+def ackermannize(exprs):
+    """replace every application of an uninterpreted function by a fresh real constant (functional consistency is
+    dropped: only adds models, so unsat stays sound) so that the pure-NRA tactic accepts the formulas"""
+    apps, seen, stack = {}, set(), list(exprs)
+    while stack:
+        t = stack.pop()
+        i = t.get_id()
+        if i in seen:
+            continue
+        seen.add(i)
+        if z3.is_app(t) and t.num_args() > 0 and t.decl().kind() == z3.Z3_OP_UNINTERPRETED:
+            apps[i] = t
+        stack.extend(t.children())
+    if not apps:
+        return list(exprs)
+    pairs = [(t, z3.Real(f"__ack{k}_{i}") if t.sort() == z3.RealSort() else z3.Const(f"__ack{k}_{i}", t.sort())) for k, (i, t) in enumerate(apps.items())]
+    # outermost applications first, so that nested applications are replaced as a whole
+    pairs.sort(key=lambda p: -len(p[0].sexpr()))
+    out = list(exprs)
+    for a, c in pairs:
+        out = [z3.substitute(e, (a, c)) for e in out]
+    return out
+
+
 def decide_any(ctx, bads, extra=(), budget_s=40, defined=()):
     """decide the disjunction of `bads` one disjunct at a time (each on its own cone of influence):
     'violated' with the first model found, 'holds' when every disjunct is unsat, otherwise 'inconclusive'"""
-    worst, lost = "holds", 0.0
+    worst, lost = _holds(ctx), 0.0
     for b in bads:
         if z3.is_false(b):
             continue
@@ -305,6 +339,8 @@ def decide_nra_sliced(ctx, negated, defined=(), budget_s=40, extra=()):
                 work.extend(names_of(c))
     dd = [d for d in defined if names_of(d) <= seen]
     full = base + chosen + dd + [negated]
+    full_ack = ackermannize(full)
+    has_uf = any(a is not b for a, b in zip(full, full_ack))
     attempts = [("default", 0, 0.25), ("nlsat", 0, 0.45), ("default", 7, 0.3)]
     for kind, seed, share in attempts:
         if kind == "default":
@@ -314,7 +350,7 @@ def decide_nra_sliced(ctx, negated, defined=(), budget_s=40, extra=()):
         else:
             s = z3.Tactic("qfnra-nlsat").solver()
         s.set("timeout", int(budget_s * share * 1000))
-        s.add(*full)
+        s.add(*(full_ack if kind == "nlsat" else full))
         t0 = time.time()
         try:
             r = s.check()
@@ -323,8 +359,10 @@ def decide_nra_sliced(ctx, negated, defined=(), budget_s=40, extra=()):
         if ctx.tally is not None:
             ctx.tally.count(str(r), time.time() - t0)
         if r == z3.unsat:
-            return "holds", None
+            return _holds(ctx), None
         if r == z3.sat:
+            if kind == "nlsat" and has_uf:
+                continue          # a model of the ackermannized formula need not respect functional consistency
             return "violated", s.model()
     return "inconclusive", None
 
